@@ -1082,6 +1082,22 @@ Definition end_block (height now : Z) (envs : list app_env) (s : state) : state 
                else if height mod pr_batch P =? 0 then atomic s (end_app now s (find_app_env app envs)) else s)
             (apps s) s.
 
+(* ghost of [end_block]: per registered app, what became of its batch - 1 executed (the writes were kept),
+   0 rolled back (an error or a recovered panic inside ExecuteRequests: nothing of the app changed and its
+   orders / requests stay), 2 not due at this height, 3 modulo by a zero batch size (recovered panic) *)
+Definition end_block_trace (height now : Z) (envs : list app_env) (s : state) : state * list (Z * Z) :=
+  fold_left (fun (st : state * list (Z * Z)) ap =>
+               let '(s, tr) := st in
+               let '(app, P) := ap in
+               if (pr_batch P =? 0) then (s, tr ++ [(app, 3)])
+               else if height mod pr_batch P =? 0 then
+                 match end_app now s (find_app_env app envs) with
+                 | Ok s' => (s', tr ++ [(app, 1)])
+                 | _ => (s, tr ++ [(app, 0)])
+                 end
+               else (s, tr ++ [(app, 2)]))
+            (apps s) (s, []).
+
 (* DeleteOutdatedRequests (batch.go:58-78) *)
 Definition begin_app (app : Z) (s : state) : state :=
   set_orders (set_wds (set_deps s (filter (fun r => negb ((d_app r =? app) && negb (d_status r =? 1))) (deps s)))
